@@ -114,6 +114,49 @@ fn era_of(s: &str) -> Era {
     }
 }
 
+
+#[allow(clippy::too_many_arguments)]
+fn one_call(
+    seq: &[usize],
+    cs: &mut CertState,
+    metxs: &[MultiEraTx],
+    variants: &[Variant],
+    env: &pallas_validate::utils::Environment,
+    utxos: &UTxOs,
+    intern: &mut Intern,
+    log: &mut Ndjson,
+    stats: &mut HashMap<&'static str, u64>,
+) {
+                // reference fold: validate_tx one at a time on a clone
+                let mut refstate = cs.clone();
+                for (ix, &k) in seq.iter().enumerate() {
+                    let before = intern.id(&refstate);
+                    let mut trial = refstate.clone();
+                    let r = pv_core::catch(|| validate_tx(&metxs[k], ix as u32, env, utxos, &mut trial));
+                    let ok = matches!(r, Ok(Ok(())));
+                    let after = intern.id(&trial);
+                    log.ev(json!({"ev": "step", "seq": log.lines + 1, "st": before, "tx": variants[k].name, "ix": ix, "ok": ok, "st2": after,
+                                  "detail": match &r { Ok(Ok(())) => String::new(), Ok(Err(e)) => format!("{e:?}"), Err(p) => format!("panic {p}") }}));
+                    if !ok {
+                        break;
+                    }
+                    refstate = trial;
+                }
+                let before = intern.id(cs);
+                let slice: Vec<MultiEraTx> = seq.iter().map(|&k| metxs[k].clone()).collect();
+                let r = pv_core::catch(|| validate_txs(&slice, env, utxos, cs));
+                let (res, detail) = match &r {
+                    Ok(Ok(())) => ("Ok", String::new()),
+                    Ok(Err(e)) => ("Err", format!("{e:?}")),
+                    Err(p) => ("panic", p.clone()),
+                };
+                *stats.entry(res).or_default() += 1;
+                let after = intern.id(cs);
+                log.ev(json!({"ev": "call", "seq": log.lines + 1, "st": before, "txs": seq.iter().map(|&k| variants[k].name.clone()).collect::<Vec<_>>(),
+                              "res": res, "st2": after, "detail": detail,
+                              "pools": cs.pstate.pool_params.len(), "rewards": cs.dstate.rewards.len(), "delegations": cs.dstate.delegations.len()}));
+}
+
 pub fn run(args: &Args) {
     crate::case::install_panic_hook();
     let seed = args.seed();
@@ -139,6 +182,23 @@ pub fn run(args: &Args) {
             utxos.insert(input, out);
         }
         let env = env_case.environment();
+        // directed: every ordered pair / triple of valid variants from a fresh state (successful multi-transaction
+        // sequences beginning and ending with state-changing as well as neutral transactions)
+        let valid: Vec<usize> = (0..variants.len()).step_by(3).collect();
+        let mut directed: Vec<Vec<usize>> = vec![];
+        for &a in &valid {
+            for &b in &valid {
+                directed.push(vec![a, b]);
+            }
+        }
+        for &a in &valid {
+            directed.push(vec![a, valid[0], valid[valid.len() - 1]]);
+        }
+        for seq in directed {
+            let mut cs: CertState = env_case.cert_state();
+            log.ev(json!({"ev": "reset", "seq": log.lines + 1, "group": which, "st": intern.id(&cs)}));
+            one_call(&seq, &mut cs, &metxs, &variants, &env, &utxos, &mut intern, &mut log, &mut stats);
+        }
         for run in 0..runs {
             let mut rng = Rng::new(seed.wrapping_mul(7919).wrapping_add(run * 31 + gi as u64));
             let mut cs: CertState = env_case.cert_state();
@@ -152,34 +212,7 @@ pub fn run(args: &Args) {
                         if rng.chance(3, 4) { k } else { k + 1 + rng.below(2) as usize }
                     })
                     .collect();
-                // reference fold: validate_tx one at a time on a clone
-                let mut refstate = cs.clone();
-                for (ix, &k) in seq.iter().enumerate() {
-                    let before = intern.id(&refstate);
-                    let mut trial = refstate.clone();
-                    let r = pv_core::catch(|| validate_tx(&metxs[k], ix as u32, &env, &utxos, &mut trial));
-                    let ok = matches!(r, Ok(Ok(())));
-                    let after = intern.id(&trial);
-                    log.ev(json!({"ev": "step", "seq": log.lines + 1, "st": before, "tx": variants[k].name, "ix": ix, "ok": ok, "st2": after,
-                                  "detail": match &r { Ok(Ok(())) => String::new(), Ok(Err(e)) => format!("{e:?}"), Err(p) => format!("panic {p}") }}));
-                    if !ok {
-                        break;
-                    }
-                    refstate = trial;
-                }
-                let before = intern.id(&cs);
-                let slice: Vec<MultiEraTx> = seq.iter().map(|&k| metxs[k].clone()).collect();
-                let r = pv_core::catch(|| validate_txs(&slice, &env, &utxos, &mut cs));
-                let (res, detail) = match &r {
-                    Ok(Ok(())) => ("Ok", String::new()),
-                    Ok(Err(e)) => ("Err", format!("{e:?}")),
-                    Err(p) => ("panic", p.clone()),
-                };
-                *stats.entry(res).or_default() += 1;
-                let after = intern.id(&cs);
-                log.ev(json!({"ev": "call", "seq": log.lines + 1, "st": before, "txs": seq.iter().map(|&k| variants[k].name.clone()).collect::<Vec<_>>(),
-                              "res": res, "st2": after, "detail": detail,
-                              "pools": cs.pstate.pool_params.len(), "rewards": cs.dstate.rewards.len(), "delegations": cs.dstate.delegations.len()}));
+                one_call(&seq, &mut cs, &metxs, &variants, &env, &utxos, &mut intern, &mut log, &mut stats);
             }
         }
     }
